@@ -692,6 +692,9 @@ struct CalcWorkload : Workload
     for (auto& tr : trace)
     {
       if (tr.first == "neigh.nomemo") { sawNeigh = true; continue; }
+      // "after the post-processing stage" is past the last statement of ACalculator::run that can fail: the shipped code
+      // cannot fail there, so a failure injected at that site describes no reachable state (site traced, never armed)
+      if (tr.first == "calc.postprocess") continue;
       Fault f;
       f.site = tr.first;
       f.occ = tr.second;
@@ -719,7 +722,7 @@ struct CalcWorkload : Workload
       const std::string& k = cop->S(0);
       if (ill == 6 || ill == 12) continue; // null Db pointers are outside the property's quantifier (DESIGN §4 C19)
       if (ill == 13 && !(k == "kriging" && specOut0)) continue;
-      if (ill == 2 && k == "simfft") continue; // never returns (same root cause as the 1-D canary): kept as a canary plan
+      // (ill == 2 with simfft used to never return: repaired in /repo, enumerated again)
       if (ill == 5 && !needsNeigh(k)) continue;
       if ((ill == 3 || ill == 4 || ill == 10) && !needsModel(k)) continue;
       if (ill == 7 && !needsNeigh(k)) continue;
